@@ -856,7 +856,7 @@ def subst_types(e, tmap, memo=None, prog=None):
     return out
 
 
-def _inlinable(prog, c, keep=()):
+def _inlinable(prog, c, keep=(), allow_pub=False):
     if c is None or not c.local or c.kind not in ("Item",):
         return None
     if c.path in keep:
@@ -864,7 +864,7 @@ def _inlinable(prog, c, keep=()):
     b = prog.bodies.get(c.path)
     if b is None or b.kind == "Closure" or b.derived:
         return None
-    if b.j.get("pub"):
+    if b.j.get("pub") and not allow_pub:
         return None
     pi = b.parent_impl or {}
     if "nom_derive::Parse" in pi.get("trait", "") or c.path.endswith(("::parse_be", "::parse_le")):
@@ -887,7 +887,7 @@ def _inline(self, e, memo=None, depth=0, stack=()):
     out = map_children(e, f, self._through)
     if out[0] == "call" and depth < 6:
         c = out[2]
-        b = _inlinable(self.prog, c, getattr(self, "keep", ()))
+        b = _inlinable(self.prog, c, getattr(self, "keep", ()), getattr(self, "allow_pub", False))
         if b is not None and c.path not in stack and len(out[3]) == b.arg_count:
             ret = self.ret_expr(c.path)
             if ret is not None:
